@@ -86,6 +86,13 @@ Theorem C19_codec_subclass_refuted : ~ C19_trace_subclass_full.
 Proof. exact codec_subclass_refuted. Qed.
 Print Assumptions C19_codec_subclass_refuted.
 
+(* mixin path (known finding C19/subclass-declared-class-flags): a field declared with a class that did not opt in
+   holds an instance of a subclass that did - the context does not reach it *)
+Definition C19_context_subclass_full : Prop := context_subclass_full.
+Theorem C19_subclass_context_refuted : ~ C19_context_subclass_full.
+Proof. exact subclass_context_refuted. Qed.
+Print Assumptions C19_subclass_context_refuted.
+
 (* Discriminators.  A class whose own Config has Discriminator(field, include_subtypes) is only a dispatcher:
    decoding a tagged dict through the base IS decoding it with the from_dict of the registered variant - same
    result, identities and events.  So the hooks that run are the variant's (declared or inherited), once, in the
